@@ -814,7 +814,7 @@ func (t *TupleType) Marshal(tupleID string, writer string) *Statement {
 		statements = append(statements, s2)
 	}
 	statements = append(statements, jen.Return(jen.Nil()))
-	return jen.Func().Params().Params(jen.Error()).Block(
+	return jen.Func().Params().Params(jen.Err().Error()).Block(
 		statements...,
 	).Call()
 }
